@@ -89,6 +89,17 @@ class World(object):
             [self.obj['llA'], self.obj['llB']], pop)
         self.obj['pred'] = c.get_predictive_model()
         self.obj['pred'].set_dosing_regimen(2.0, start=0.2, duration=0.3)
+        self.obj['priorpred'] = chi.PriorPredictiveModel(
+            chi.PredictiveModel(ToyModel(2, 1), [chi.GaussianErrorModel()]),
+            pints.ComposedLogPrior(*[pints.UniformLogPrior(0.5, 1.5)
+                                     for _ in range(3)]))
+        # an SBML-driven likelihood with one fixed mechanistic parameter
+        f_mech = chi.library.ModelLibrary().one_compartment_pk_model()
+        f_mech.set_administration('central', direct=True)
+        f_mech.set_dosing_regimen(2.0, start=0.2, duration=0.3)
+        self.obj['llF'] = chi.LogLikelihood(
+            f_mech, [chi.GaussianErrorModel()], [1.4, 0.9, 0.5], [0.5, 1.5, 2.5])
+        self.obj['llF'].fix_parameters({'central.size': 1.3})
         self.obj['predR'] = chi.PredictiveModel(ToyModel(2, 1), [self.user_err_red])
         self.obj['predR2'] = chi.PredictiveModel(ToyModel(2, 1),
                                                  [self.user_err_red])
@@ -121,6 +132,7 @@ POINTS = {
              np.array([0.7, -0.4, 0.9, 1.3, 0.2, 0.4,
                        0.1, 0.2, 0.5, 0.9, 0.2, -0.7, 0.4])],
     'llR': [np.array([1.1, 0.6, 0.4]), np.array([0.8, 0.9, 0.3])],
+    'llF': [np.array([0.3, 0.8, 0.5]), np.array([0.2, 1.1, 0.7])],
     'filter': [np.array([[[1.2, 2.2, 1.0]], [[0.8, 1.9, 1.6]], [[1.5, 2.8, 1.2]],
                          [[1.1, 2.5, 1.4]]]),
                np.array([[[0.9, 2.4, 1.3]], [[1.1, 2.0, 0.9]], [[1.6, 3.1, 1.5]],
@@ -148,6 +160,9 @@ class ModelWorld(object):
             chi.PooledModel(), chi.LogNormalModel(),
             chi.GaussianModel(centered=False)])
         o['popH'] = chi.HeterogeneousModel(n_dim=2, n_ids=2)
+        o['popTG'] = chi.TruncatedGaussianModel(n_dim=2)
+        o['popTGR'] = chi.ReducedPopulationModel(chi.TruncatedGaussianModel(n_dim=2))
+        o['popTGR'].fix_parameters({'Sigma Dim. 2': 0.6})
         o['errR'] = chi.ReducedErrorModel(
             chi.ConstantAndMultiplicativeGaussianErrorModel())
         o['errR'].fix_parameters({'Sigma base': 0.3})
@@ -169,6 +184,10 @@ MODEL_POINTS = {
              ([0.8, 1.4, 0.9, 0.2], [[0.8, 1.9, 0.9], [0.8, 0.7, 0.2]])],
     'pop': [([1.5, 0.2, 0.5, 0.9, 0.6], [[1.5, 1.1, 0.3], [1.5, 0.8, -0.4]]),
             ([0.7, -0.1, 0.8, 1.4, 0.3], [[0.7, 1.6, -0.2], [0.7, 0.5, 0.9]])],
+    'popTG': [([1.0, 0.7, 0.5, 0.6], [[1.1, 0.4], [0.6, 0.9]]),
+              ([0.4, 1.2, 0.8, 0.3], [[0.3, 1.0], [0.9, 1.4]])],
+    'popTGR': [([1.0, 0.7, 0.5], [[1.1, 0.4], [0.6, 0.9]]),
+               ([0.4, 1.2, 0.8], [[0.3, 1.0], [0.9, 1.4]])],
     'popH': [([1.0, 2.0, 3.0, 4.0], [[1.0, 2.0], [3.0, 4.0]]),
              ([0.5, 0.6, 0.7, 0.8], [[0.5, 0.6], [0.7, 0.8]])],
     # error models: (parameters, model output, observations)
@@ -213,7 +232,8 @@ def apply_model(world, op):
     elif kind == 'm_psi':
         r = [o.compute_individual_parameters(args[0], args[1])]
     elif kind == 'm_sample':
-        r = [o.sample(args[0], n_samples=2, seed=3)]
+        # (integer seeds 0 and 3: a falsy seed is a seed)
+        r = [o.sample(args[0], n_samples=2, seed=0 if k == 0 else 3)]
     elif kind == 'e_ll':
         r = [o.compute_log_likelihood(args[0], args[1], args[2])]
     elif kind == 'e_pw':
@@ -222,7 +242,7 @@ def apply_model(world, op):
         S = np.array([[0.3, -0.2], [0.5, 0.1], [-0.4, 0.7]])
         r = list(o.compute_sensitivities(args[0], args[1], S, args[2]))
     elif kind == 'e_sample':
-        r = [o.sample(args[0], args[1], n_samples=2, seed=3)]
+        r = [o.sample(args[0], args[1], n_samples=2, seed=0 if k == 0 else 3)]
     elif kind == 'sim':
         o.enable_sensitivities(False)
         r = [o.simulate(args[0], args[1])]
@@ -249,7 +269,7 @@ def ptype(name):
     if name.startswith('filter'):
         return 'filter'
     return {'llA': 'll', 'llB': 'll', 'postA': 'll', 'postB': 'll', 'hier': 'hier',
-            'fpost': 'fpost', 'llR': 'llR'}[name]
+            'fpost': 'fpost', 'llR': 'llR', 'llF': 'llF'}[name]
 
 
 def all_ops():
@@ -274,8 +294,13 @@ def all_ops():
     ops.append(['sampleR', 'predR2', 3])
     ops.append(['call', 'llR', 0])
     ops.append(['S1', 'llR', 1])
+    for k in (0, 1):
+        ops.append(['call', 'llF', k])
+        ops.append(['S1', 'llF', k])
+    ops.append(['psample', 'priorpred', 0])
+    ops.append(['psample', 'priorpred', 4])
     for m in ('mut_outputs', 'mut_regimen', 'mut_adm', 'mut_sens', 'mut_names',
-              'mut_err', 'mut_err_refix', 'mut_sib_refix'):
+              'mut_err', 'mut_err_refix', 'mut_sib_refix', 'mut_swap_llF'):
         ops.append([m, 'user', 0])
     return ops
 
@@ -305,6 +330,12 @@ def apply(world, op):
         elif kind == 'mut_err_refix':
             # the user re-fixes the parameter of their own reduced error model
             world.user_err_red.fix_parameters({'Sigma rel.': 0.9})
+        elif kind == 'mut_swap_llF':
+            # one call frees the fixed parameter and fixes another one (same number
+            # of fixed parameters before and after); a reconfiguration of llF itself
+            world.obj['llF'].fix_parameters({
+                'central.size': None, 'global.elimination_rate': 0.8})
+            return ['mutated'], True
         elif kind == 'mut_sib_refix':
             # ... or fixes it on a sibling predictive model built from it
             world.obj['predR2'].fix_parameters({'Sigma rel.': 0.7})
@@ -317,6 +348,10 @@ def apply(world, op):
         t0, th0 = times.copy(), theta.copy()
         r = o.sample(theta, times, n_samples=2, seed=k, return_df=False)
         return [r], np.array_equal(times, t0) and np.array_equal(theta, th0)
+    if kind == 'psample':
+        times = np.array([2.0, 0.5, 1.2])
+        df = o.sample(times, n_samples=2, seed=k)
+        return [df['Value'].to_numpy(dtype=float)], True
     if kind == 'sampleR':
         theta = np.array([0.9, 1.3, 0.4])
         times = np.array([2.0, 0.5, 1.2])
@@ -402,6 +437,8 @@ def check_history(world, history, viol, where='same process'):
         own = ()
         if op[1] == 'predR2' and any(h[0] == 'mut_sib_refix' for h in history[:i]):
             own = (('mut_sib_refix', 'user', 0),)
+        if op[1] == 'llF' and any(h[0] == 'mut_swap_llF' for h in history[:i]):
+            own = (('mut_swap_llF', 'user', 0),)
         exp = reference(tuple(op), own)
         if op[0] == 'fail':
             exp = [-np.inf]
@@ -530,6 +567,13 @@ def build(tier, seed):
             for b in mids[::2]:
                 for c in ll_ops[1::2]:
                     hist.append({'ops': [a, b, c]})
+    # an object reconfigured between two of its own evaluations
+    for own_mut, name in (('mut_swap_llF', 'llF'), ('mut_sib_refix', 'predR2')):
+        own_ops = [o for o in evals if o[1] == name]
+        for a in own_ops:
+            for c in own_ops:
+                hist.append({'ops': [a, [own_mut, 'user', 0], c]})
+                hist.append({'ops': [a, [own_mut, 'user', 0], c, a]})
     # the user model was used before anything was built from it
     sbml_e = [o for o in evals if o[1] in ('llA', 'llB', 'postA', 'hier', 'pred')]
     for pre in (['sim0'], ['sim1'], ['sim0', 'sensOn'], ['sensOn', 'sim1'],
